@@ -611,7 +611,9 @@ class TupleConverter(t.Generic[T], Converter[T]):
         if len(val) != len(self.converters):
             raise ParseInterrupt
 
-        return self.ty(conv.try_convert(v) for (conv, v) in zip(self.converters, val))  # type: ignore
+        # (a named tuple class takes its items one by one: it is made from an iterable with `_make`)
+        make = getattr(self.ty, '_make', self.ty)
+        return make(conv.try_convert(v) for (conv, v) in zip(self.converters, val))  # type: ignore
 
     def collect_errors(self, val: t.Any) -> t.Union[None, ProductErrorNode, WrongTypeError]:
         """See [`Converter.collect_errors`][pane.converters.Converter.collect_errors]"""
